@@ -195,6 +195,16 @@ def pmap(fn, items, procs: int = 16, chunksize: int = 64):
     with ctx.Pool(procs, initializer=_init_worker) as pool:
         return pool.map(fn, items, chunksize=chunksize)
 
+def library_failure(r):
+    """A worker died with an exception: if the innermost frame is inside pydsdl, the LIBRARY failed while being observed
+    (e.g. an internal assertion) - that is a finding about the code, not about the harness."""
+    tb = r.get("tb", "")
+    frames = [l for l in tb.splitlines() if l.strip().startswith("File ")]
+    if frames and "/pydsdl/" in frames[-1]:
+        return {"kind": "library-exception", "case": r.get("item", "")[:400],
+                "diff": [("pydsdl raised while being observed", r["harness_exception"][:300], frames[-1].strip()[:200])]}
+    return None
+
 def safe(fn):
     """Decorator for worker functions: never let an exception kill the pool; report it as an observation."""
     def w(x):
